@@ -5,3 +5,8 @@ namespace MidnightZK.C17.Driver
 def answer (_line : String) : String := "unimplemented"
 
 end MidnightZK.C17.Driver
+
+/-- `mzk-c17 < ops.txt > model.txt` : one answer line per request line. -/
+def main : IO UInt32 := do
+  MidnightZK.lineLoop (← IO.getStdin) (← IO.getStdout) MidnightZK.C17.Driver.answer
+  return 0
